@@ -7,6 +7,7 @@ pub mod gen;
 pub mod grid;
 pub mod kernel;
 pub mod ops;
+pub mod probe;
 
 pub use chain::{install_panic_hook, World};
 pub use dump::dump;
